@@ -721,6 +721,12 @@ class TrajectoryStore:
                     'All trajectories in a TrajectoryStore must have the same '
                     'data fields'
                 )
+        elif self.nc_linked and set(trajectory._fieldsets) != set(self._nc.keys()):
+            # Nothing is cached (e.g. first addition of an APPEND session): the
+            # schema is the one fixed by the NetCDF files.
+            raise ValueError(
+                'All trajectories in a TrajectoryStore must have the same data fields'
+            )
 
         # Decide on whether or not we can index the store, checking consistency
         # on this decision with each trajectory we add.
@@ -732,6 +738,13 @@ class TrajectoryStore:
                 'All trajectories in an indexable TrajectoryStore must have '
                 'flight_id field, and non-indexable stores must not have it'
             )
+
+        # All validation has to happen before anything is modified: a rejected
+        # trajectory must leave the store (and its files) untouched.
+        for name, field in trajectory._data_dictionary.items():
+            if field.required and trajectory._data.get(name) is None:
+                raise ValueError(f'Data field "{name}" is None')
+
         if self.indexable is None:
             self.indexable = has_flight_id
 
